@@ -533,11 +533,27 @@ def _finite(t):
     return z3.And(z3.Not(z3.fpIsNaN(t)), z3.Not(z3.fpIsInf(t)))
 
 
+# NumPy's process-wide floating-point error state as the proxies see it (np.seterr / np.errstate on the stand-in change
+# it, exactly as the real calls change NumPy's): category -> 'warn' | 'ignore' | 'raise'
+ERRSTATE_DEFAULT = {'divide': 'warn', 'over': 'warn', 'invalid': 'warn', 'under': 'ignore'}
+ERRSTATE = dict(ERRSTATE_DEFAULT)
+
+
+def _err_category(message: str) -> str:
+    return 'divide' if message.startswith('divide') else 'over' if message.startswith('overflow') else 'under' if message.startswith('underflow') else 'invalid'
+
+
 def _warn_if(cond, message: str) -> None:
-    """Fork on `cond`; on the true side behave as NumPy does (warnings.warn with RuntimeWarning)."""
+    """Fork on `cond`; on the true side behave as NumPy does under the current error state (default: warnings.warn with
+    RuntimeWarning)."""
     import warnings
 
+    mode = ERRSTATE[_err_category(message)]
+    if mode == 'ignore':
+        return
     if cur().branch(cond, prefer=False):
+        if mode == 'raise':
+            raise FloatingPointError(message)
         warnings.warn(message, RuntimeWarning, stacklevel=3)
 
 
